@@ -5,28 +5,22 @@ From PahoV Require Import Base.Prelude Codec.RemLen Codec.RemLenProofs Codec.Wir
   Codec.Packets Codec.SpecDecode Codec.PacketsSpec Codec.PacketsLemmas Codec.PacketsProofs Codec.PacketsApi.
 
 (* ---------------------------------------------------------------- encoders: Ok means "the bytes of wire" *)
+Ltac enc_cases := repeat match goal with
+  | |- context [if ?b then _ else _] => destruct b eqn:?
+  end.
+
 Lemma encode_ok_wire v it bs : encode v it = Ok bs -> bs = wire v it.
 Proof.
-  destruct it as [a|a|k m|r|r p|m t p|m t p]; cbn [encode wire].
-  - unfold encode_connect. destruct (connect_struct_ok a); congruence.
-  - unfold encode_publish. destruct (negb _); [discriminate|]. destruct (publish_struct_ok a); congruence.
-  - unfold encode_ack. destruct (u16_ok m); congruence.
-  - unfold encode_ping. congruence.
-  - unfold encode_disconnect. destruct (_ && _); congruence.
-  - unfold encode_subscribe. repeat (destruct (negb _); [discriminate|]). congruence.
-  - unfold encode_unsubscribe. destruct (_ && _); congruence.
+  destruct it as [a|a|k m|r|r p|m t p|m t p]; cbn [encode wire];
+    unfold encode_connect, encode_publish, encode_ack, encode_ping, encode_disconnect, encode_subscribe, encode_unsubscribe;
+    enc_cases; congruence.
 Qed.
 
 Lemma encode_total v it : (exists bs, encode v it = Ok bs) \/ (exists k, encode v it = Raise k).
 Proof.
-  destruct it as [a|a|k m|r|r p|m t p|m t p]; cbn [encode].
-  - unfold encode_connect. destruct (connect_struct_ok a); eauto.
-  - unfold encode_publish. destruct (negb _); eauto. destruct (publish_struct_ok a); eauto.
-  - unfold encode_ack. destruct (u16_ok m); eauto.
-  - unfold encode_ping. eauto.
-  - unfold encode_disconnect. destruct (_ && _); eauto.
-  - unfold encode_subscribe. repeat (destruct (negb _); eauto).
-  - unfold encode_unsubscribe. destruct (_ && _); eauto.
+  destruct it as [a|a|k m|r|r p|m t p|m t p]; cbn [encode];
+    unfold encode_connect, encode_publish, encode_ack, encode_ping, encode_disconnect, encode_subscribe, encode_unsubscribe;
+    enc_cases; eauto.
 Qed.
 
 (* every over-long string / out-of-range 16-bit field makes the encoder raise: these inputs are rejected *)
@@ -44,68 +38,28 @@ Definition struct_ok (it : item) : bool :=
 Lemma struct_rejects v it : struct_ok it = false -> exists k, encode v it = Raise k.
 Proof.
   destruct it as [a|a|k m|r|r p|m t p|m t p]; cbn [encode struct_ok]; intros H; try discriminate.
-  - unfold encode_connect. rewrite H. eauto.
-  - unfold encode_publish. destruct (negb _); eauto. rewrite H. eauto.
+  - unfold encode_connect. rewrite H. enc_cases; eauto.
+  - unfold encode_publish. rewrite H. enc_cases; eauto.
   - unfold encode_ack. rewrite H. eauto.
-  - unfold encode_subscribe, subscribe_struct_ok in *. destruct (u16_ok m); cbn [negb andb] in *; eauto.
-    rewrite H. cbn [negb]. eauto.
-  - unfold encode_unsubscribe. rewrite H. eauto.
+  - unfold encode_subscribe, subscribe_struct_ok in *. destruct (_ >? _); eauto.
+    destruct (u16_ok m); cbn [negb andb] in *; eauto. rewrite H. cbn [negb]. eauto.
+  - unfold encode_unsubscribe. rewrite H. enc_cases; eauto.
 Qed.
 
-(* ---------------------------------------------------------------- F-C04a: the remaining length above the limit *)
-Lemma spec_decode_over v b0 n tail : rl_max < n -> spec_decode v (b0 :: rl_encode n ++ tail) = None.
+(* ---------------------------------------------------------------- F-C04a repaired: the remaining length limit *)
+(* whatever the encoders emit announces a remaining length within the limit ... *)
+Lemma encode_ok_remlen v it bs : encode v it = Ok bs -> remlen v it <= rl_max.
 Proof.
-  intros H. unfold spec_decode. destruct (negb (byte_ok b0)); [reflexivity|].
-  rewrite rl_decode_over by assumption. reflexivity.
+  destruct it as [a|a|k m|r|r p|m t p|m t p]; cbn [encode remlen];
+    unfold encode_connect, encode_publish, encode_ack, encode_ping, encode_disconnect, encode_subscribe, encode_unsubscribe;
+    try (unfold rl_max; lia); enc_cases; intros; try discriminate; lia.
 Qed.
 
-Lemma wire_frame v it : rl_max < remlen v it ->
-  exists b0 body, wire v it = b0 :: rl_encode (remlen v it) ++ body.
+(* ... and a packet whose remaining length would exceed it is rejected with an exception *)
+Theorem remlen_rejects v it : rl_max < remlen v it -> exists k, encode v it = Raise k.
 Proof.
-  destruct it as [a|a|k m|r|r p|m t p|m t p]; cbn [wire remlen]; intros H.
-  - unfold connect_bytes. eauto.
-  - unfold publish_bytes, publish_header. cbn [app]. rewrite <- app_assoc. eauto.
-  - unfold rl_max in H. lia.
-  - unfold rl_max in H. lia.
-  - unfold disconnect_bytes. destruct (is_v5 v); [|unfold rl_max in H; lia].
-    destruct r, p; try (unfold rl_max in H; lia); eauto.
-  - unfold subscribe_bytes. eauto.
-  - unfold unsubscribe_bytes. eauto.
-Qed.
-
-(* whatever the encoder emits with a remaining length above 268435455 is malformed: five or more
-   length bytes, rejected by the specification decoder - no 256 MB list is needed to state this *)
-Theorem overflow_malformed v it bs rest :
-  encode v it = Ok bs -> rl_max < remlen v it ->
-  spec_decode v (bs ++ rest) = None /\ (5 <= length (rl_encode (remlen v it)))%nat.
-Proof.
-  intros E H. apply encode_ok_wire in E. subst bs.
-  destruct (wire_frame v it H) as (b0 & body & W). rewrite W. cbn [app]. rewrite <- app_assoc.
-  split; [apply spec_decode_over; assumption | apply rl_encode_over_length; assumption].
-Qed.
-
-(* the PUBLISH header for a payload of n bytes, n up to the limit publish() checks: nothing raises *)
-Lemma publish_overflow_emitted v topic payload :
-  len topic = 1 -> has_wildcard topic = false -> len payload = 268435455 ->
-  exists bs, emit v (CPublish 0 topic payload 0 false None) = Ok bs /\
-             (forall rest, spec_decode v (bs ++ rest) = None) /\
-             remlen v (IPublish {| p_dup := false; p_qos := 0; p_retain := false; p_mid := 1; p_topic := topic;
-                                   p_payload := payload; p_props := [0] |}) >= 268435458.
-Proof.
-  intros Ht Hw Hp. unfold emit, api. rewrite Hw, Ht, Hp.
-  assert (is_empty topic = false) as -> by (destruct topic; [discriminate | reflexivity]).
-  rewrite andb_false_r. cbn [qos_bad orb Z.ltb Z.gtb Z.compare Pos.compare Pos.compare_cont].
-  change (mid_next 0) with 1. cbn [packed].
-  set (a := {| p_dup := false; p_qos := 0; p_retain := false; p_mid := 1; p_topic := topic;
-               p_payload := payload; p_props := [0] |}).
-  assert (E : encode v (IPublish a) = Ok (publish_bytes v a)).
-  { cbn [encode]. unfold encode_publish, publish_struct_ok, str16_ok. cbn [a p_dup p_qos p_retain p_topic p_mid].
-    rewrite Ht. reflexivity. }
-  assert (R : remlen v (IPublish a) >= 268435458).
-  { cbn [remlen]. unfold publish_remlen, publish_remlen_n. cbn [a p_qos p_topic p_props p_payload].
-    rewrite Ht, Hp. change (0 >? 0) with false. change (len [0]) with 1. destruct (is_v5 v); lia. }
-  exists (publish_bytes v a). split; [exact E | split; [|exact R]].
-  intros rest. apply (overflow_malformed v (IPublish a)); [exact E | unfold rl_max; lia].
+  intros H. destruct (encode_total v it) as [[bs E]|R]; [|exact R].
+  apply encode_ok_remlen in E. lia.
 Qed.
 
 (* ---------------------------------------------------------------- auxiliary facts for the partial theorem *)
@@ -223,18 +177,20 @@ Theorem api_representable v c it bs :
   api_pre v c = true -> excl v c = true -> api v c = Ok it -> encode v it = Ok bs ->
   representable v it = true.
 Proof.
-  intros Hpre Hex Hapi Henc. unfold excl in Hex. split_andb.
-  unfold excl_remlen in *. rewrite Hapi in *.
+  intros Hpre Hex Hapi Henc. unfold excl in Hex.
+  pose proof (encode_ok_remlen v it bs Henc) as Hrl.
+  assert (Hrlb : (remlen v it <=? rl_max) = true) by lia. clear Hrl.
   destruct c as [cls cs first bridge ka cid will user pw props | last_mid topic payload qos retain props
                 | last_mid topics props | last_mid topics props | reason props];
-    cbn [api api_pre excl_nul excl_unsub_empty excl_will_wildcard] in *.
+    cbn [api api_pre excl_nul] in *; split_andb.
   - (* CONNECT *)
     destruct (negb (is_v5 v) && negb cls && is_empty cid) eqn:E1; [discriminate|].
-    destruct (match will with Some w => is_empty (wc_topic w) || qos_bad (wc_qos w) | None => false end) eqn:E2;
-      [discriminate|].
+    destruct (match will with
+              | Some w => is_empty (wc_topic w) || qos_bad (wc_qos w) || has_wildcard (wc_topic w) || (len (wc_topic w) >? 65535)
+              | None => false end) eqn:E2; [discriminate|].
     destruct (ka <? 0) eqn:E3; [discriminate|].
     inv Hapi. cbn [encode representable remlen] in *.
-    unfold encode_connect in Henc. destruct (connect_struct_ok _) eqn:S; [|discriminate].
+    unfold encode_connect in Henc. destruct (_ >? _); [discriminate|]. destruct (connect_struct_ok _) eqn:S; [|discriminate].
     unfold connect_struct_ok in S.
     cbn [c_keepalive c_client_id c_will c_username c_password] in S. split_andb.
     unfold representable_connect.
@@ -246,11 +202,13 @@ Proof.
         destruct cls; cbn in *; congruence.
     + apply voprops_packed; assumption.
     + destruct will as [w|]; [|reflexivity]. unfold representable_will.
-      cbn [w_qos w_topic w_payload w_props] in *. apply orb_false_iff in E2 as [E2a E2b]. split_andb.
+      cbn [w_qos w_topic w_payload w_props] in *.
+      apply orb_false_iff in E2 as [E2 E2d]. apply orb_false_iff in E2 as [E2 E2c].
+      apply orb_false_iff in E2 as [E2a E2b]. split_andb.
       split_goal.
       * apply qos_bad_ok; assumption.
       * unfold text_ok. rewrite utf8_wf_ok by assumption. rewrite andb_true_r. assumption.
-      * assumption.
+      * apply has_wildcard_no; assumption.
       * apply not_empty_nonempty; assumption.
       * assumption.
       * apply voprops_packed; assumption.
@@ -262,11 +220,12 @@ Proof.
     destruct (has_wildcard topic) eqn:E2; [discriminate|].
     destruct (len topic >? 65535) eqn:E3; [discriminate|].
     destruct (qos_bad qos) eqn:E4; [discriminate|].
-    destruct (len payload >? 268435455) eqn:E5; [discriminate|].
+    destruct (publish_remlen_n v qos topic (packed props) (len payload) >? 268435455) eqn:E5; [discriminate|].
     inv Hapi. cbn [representable remlen] in *. unfold representable_publish.
     cbn [p_dup p_qos p_retain p_mid p_topic p_payload p_props]. split_andb.
     split_goal; try assumption.
     + apply qos_bad_ok; assumption.
+    + reflexivity.
     + rewrite mid_next_ok by assumption. apply orb_true_r.
     + unfold text_ok, str16_ok, u16_ok. rewrite utf8_wf_ok by assumption. pose proof (len_ge0 topic). lia.
     + apply has_wildcard_no; assumption.
@@ -284,17 +243,19 @@ Proof.
     + destruct topics; [discriminate | reflexivity].
     + apply sub_entries_ok; assumption.
   - (* UNSUBSCRIBE *)
+    destruct (is_empty topics) eqn:E0; [discriminate|].
     destruct (existsb is_empty topics) eqn:E1; [discriminate|].
     inv Hapi. cbn [representable remlen encode] in *. unfold representable_unsubscribe. split_andb.
-    unfold encode_unsubscribe in Henc. destruct (u16_ok _ && forallb str16_ok topics) eqn:S; [|discriminate].
+    unfold encode_unsubscribe in Henc. destruct (_ >? _); [discriminate|].
+    destruct (u16_ok _ && forallb str16_ok topics) eqn:S; [|discriminate].
     split_andb.
     split_goal; try assumption.
     + apply mid_next_ok; assumption.
     + apply voprops_packed; assumption.
-    + destruct topics; [discriminate | reflexivity].
+    + apply not_empty_nonempty; assumption.
     + apply unsub_topics_ok; assumption.
   - (* DISCONNECT *)
-    inv Hapi. cbn [representable remlen] in *. unfold representable_disconnect. split_andb.
+    inv Hapi. cbn [representable remlen] in *. unfold representable_disconnect, disconnect_remlen in *.
     destruct (is_v5 v); [|reflexivity].
     apply andb_true_iff; split; [assumption|].
     destruct props as [p|]; [|reflexivity]. cbn [oprops_wf] in *.
@@ -332,7 +293,7 @@ Proof.
     inv H. reflexivity.
   - repeat match type of H with (if ?b then _ else _) = _ => destruct b eqn:?; [discriminate|] end.
     inv H. cbn [packet_of]. rewrite sub_map_supplied by assumption. reflexivity.
-  - destruct (existsb is_empty topics); [discriminate|]. inv H. reflexivity.
+  - destruct (is_empty topics); [discriminate|]. destruct (existsb is_empty topics); [discriminate|]. inv H. reflexivity.
   - inv H. cbn [packet_of]. unfold packet_of_disconnect. destruct (is_v5 v), reason, props; reflexivity.
 Qed.
 
@@ -356,8 +317,8 @@ Definition C04_rejects_full : Prop :=
   forall v c it, api_pre v c = true -> api v c = Ok it -> representable v it = false ->
   exists k, encode v it = Raise k.
 
-(* PARTIAL: both hold outside the four excluded argument families
-   (remaining length above the limit, U+0000 in a text field, unsubscribe([]), wildcard in the will topic) *)
+(* PARTIAL: both hold outside the one excluded argument family, U+0000 in a text field (F-C04b, open).
+   The former exclusions F-C04a/c/d are gone: the repaired code rejects those inputs and so does the model. *)
 Theorem wellformed_partial v c bs :
   api_pre v c = true -> excl v c = true -> emit v c = Ok bs ->
   forall rest, spec_decode v (bs ++ rest) = Some (supplied v c, rest).
@@ -376,49 +337,62 @@ Proof.
   rewrite (api_representable v c it bs Hpre Hex Hapi E) in Hrep. discriminate.
 Qed.
 
-(* ---------------------------------------------------------------- REFUTATIONS of the full statements *)
-(* F-C04a: publish(topic of 1 byte, payload of 268435455 bytes): accepted by publish(), remaining length
-   268435458 written in five length bytes.  The payload is `repeat 0 n` - never computed. *)
-Definition big_payload : bytes := repeat 0 (Z.to_nat 268435455).
+(* ---------------------------------------------------------------- where F-C04b cannot occur the FULL statement holds *)
+Theorem wellformed_disconnect_full v reason props bs :
+  api_pre v (CDisconnect reason props) = true -> emit v (CDisconnect reason props) = Ok bs ->
+  forall rest, spec_decode v (bs ++ rest) = Some (supplied v (CDisconnect reason props), rest).
+Proof. intros P E. apply wellformed_partial; [exact P | reflexivity | exact E]. Qed.
+
+(* a call without any U+0000 in its text arguments: full strength, no other hypothesis about the arguments *)
+Theorem wellformed_no_nul v c bs :
+  api_pre v c = true -> excl_nul c = true -> emit v c = Ok bs ->
+  spec_decode v bs = Some (supplied v c, []).
+Proof. intros P N E. rewrite <- (app_nil_r bs). apply wellformed_partial; assumption. Qed.
+
+(* ---------------------------------------------------------------- the repaired families: now rejected (regressions) *)
+Definition big_payload : bytes := repeat 0 (Z.to_nat 268435455).     (* never computed *)
 
 Lemma big_payload_len : len big_payload = 268435455.
 Proof. unfold len, big_payload. rewrite repeat_length, Z2Nat.id by lia. reflexivity. Qed.
 
-Theorem overflow_refuted :
-  exists v c bs, api_pre v c = true /\ emit v c = Ok bs /\ spec_decode v bs = None.
+(* F-C04a: publish(1-byte topic, 268435455-byte payload) raises ValueError('Payload too large.') in every version *)
+Theorem overflow_publish_rejected v topic payload qos retain props last_mid :
+  len topic = 1 -> len payload = 268435455 -> emit v (CPublish last_mid topic payload qos retain props) = Raise E_value.
 Proof.
-  destruct (publish_overflow_emitted V311 [116] big_payload eq_refl eq_refl big_payload_len) as (bs & E & D & _).
-  exists V311, (CPublish 0 [116] big_payload 0 false None), bs.
-  split; [reflexivity | split; [exact E|]]. rewrite <- (app_nil_r bs). apply D.
+  intros Ht Hp. unfold emit, api.
+  repeat match goal with |- context [if ?b then _ else _] =>
+    lazymatch b with
+    | publish_remlen_n _ _ _ _ _ >? _ => fail
+    | _ => destruct b; [reflexivity|]
+    end end.
+  assert (publish_remlen_n v qos topic (packed props) (len payload) >? 268435455 = true) as ->; [|reflexivity].
+  unfold publish_remlen_n. rewrite Ht, Hp. pose proof (len_ge0 (packed props)).
+  destruct (qos >? 0), (is_v5 v); lia.
 Qed.
 
+Theorem overflow_witness_rejected :
+  emit V311 (CPublish 0 [116] big_payload 0 false None) = Raise E_value.
+Proof. apply overflow_publish_rejected; [reflexivity | apply big_payload_len]. Qed.
+
+(* F-C04c: unsubscribe([]) raises ValueError('Empty topic list') *)
+Theorem unsub_empty_rejected v last_mid props : emit v (CUnsubscribe last_mid [] props) = Raise E_value.
+Proof. reflexivity. Qed.
+
+(* F-C04d: will_set("a/#") raises; in general any wildcard in the will topic is rejected *)
+Theorem will_wildcard_rejected v cls cs first bridge ka cid w user pw props :
+  has_wildcard (wc_topic w) = true ->
+  exists k, emit v (CConnect cls cs first bridge ka cid (Some w) user pw props) = Raise k.
+Proof.
+  intros H. unfold emit, api. destruct (_ && _ && _); [eauto|].
+  rewrite H. rewrite orb_true_r. cbn [orb]. eauto.
+Qed.
+
+(* ---------------------------------------------------------------- REFUTATION of the full statements (F-C04b, open) *)
 (* F-C04b: U+0000 inside a topic is emitted *)
 Theorem nul_refuted :
   exists v c bs, api_pre v c = true /\ emit v c = Ok bs /\ spec_decode v bs = None.
 Proof.
   exists V311, (CPublish 0 [97; 0; 98] [120] 0 false None), [48; 6; 0; 3; 97; 0; 98; 120].
-  vm_compute. repeat split.
-Qed.
-
-(* F-C04c: unsubscribe([]) emits an UNSUBSCRIBE without any topic filter *)
-Theorem unsub_empty_refuted :
-  exists v c bs, api_pre v c = true /\ emit v c = Ok bs /\ spec_decode v bs = None.
-Proof.
-  exists V311, (CUnsubscribe 0 [] None), [162; 2; 0; 1].
-  vm_compute. repeat split.
-Qed.
-
-(* F-C04d: will_set("a/#") puts a wildcard into the will topic of the CONNECT *)
-Definition will_wild_call : call :=
-  CConnect true CS_first_only true false 60 [99]
-           (Some {| wc_topic := [97; 47; 35]; wc_payload := []; wc_qos := 0; wc_retain := false; wc_props := None |})
-           None None None.
-
-Theorem will_wildcard_refuted :
-  exists v c bs, api_pre v c = true /\ emit v c = Ok bs /\ spec_decode v bs = None.
-Proof.
-  exists V311, will_wild_call,
-    [16; 20; 0; 4; 77; 81; 84; 84; 4; 6; 0; 60; 0; 1; 99; 0; 3; 97; 47; 35; 0; 0].
   vm_compute. repeat split.
 Qed.
 
